@@ -168,7 +168,8 @@ func lwImpl(f []string) string {
 	if e1 != nil || e2 != nil || e3 != nil || pw == nil || user == nil {
 		return "bad-op"
 	}
-	key, pemKey := testKey()
+	// the server's key pair differs from case to case (three pairs, chosen by the case)
+	key, pemKey := testKeyN(enc + len(pw)*7 + nrem*3 + nlen + len(user))
 	run := func() (wire []byte, errText string, outcome string, nonce []byte, rempw [][]byte) {
 		mc := newMemConn()
 		info := testInfo()
@@ -215,6 +216,13 @@ func lwImpl(f []string) string {
 			errText = lerr.Error()
 		}
 		return mc.written(), errText, outcome, nonce, rempw
+	}
+	if enc == 35 {
+		// the client has talked to another server (another key pair) before: every case is self-contained
+		keyIdx := enc + len(pw)*7 + nrem*3 + nlen + len(user)
+		_, pemKey = testKeyN(keyIdx + 1)
+		run()
+		_, pemKey = testKeyN(keyIdx)
 	}
 	wire, errText, outcome, nonce, rempw := run()
 	msgs := bodiesOf(wire)
